@@ -360,7 +360,7 @@ func runCase(k *vf.Case) {
 			if cerr == nil {
 				for _, s := range sp.sets {
 					for n := 1 + r.Intn(6); n > 0; n-- {
-						c.Record(ctx, float64(r.Intn(20000))/2, metric.WithAttributeSet(s))
+						c.Record(ctx, float64(r.Intn(44000)-2000)/2, metric.WithAttributeSet(s)) // below the first and above the last default boundary too
 					}
 				}
 			}
@@ -927,6 +927,129 @@ func runScopes(k *vf.Case) {
 	k.C.Sig(fmt.Sprintf("scopes|%d|%d", n, len(distinct)))
 }
 
+// runExpo: a histogram under the base-2 exponential aggregation is exposed as a Prometheus native histogram.
+// The spans/deltas of the exposed histogram are decoded back into (bucket index -> count) and compared with
+// the twin reader's data point: OTel bucket j is native bucket j+1, on the positive and on the negative side.
+func runExpo(k *vf.Case) {
+	r := k.R
+	reg := prometheus.NewRegistry()
+	exp, err := otelprom.New(otelprom.WithRegisterer(reg))
+	if err != nil {
+		k.Violate("exporter-constructor-error", "", err.Error(), nil)
+		return
+	}
+	twin := sdkmetric.NewManualReader()
+	mp := sdkmetric.NewMeterProvider(sdkmetric.WithReader(exp), sdkmetric.WithReader(twin),
+		sdkmetric.WithView(sdkmetric.NewView(sdkmetric.Instrument{Name: "lat"}, sdkmetric.Stream{Aggregation: sdkmetric.AggregationBase2ExponentialHistogram{MaxSize: vf.Pick(r, []int32{4, 20, 160}), MaxScale: vf.Pick(r, []int32{0, 3, 8, 8, 20})}})))
+	ctx := context.Background()
+	h, _ := mp.Meter("expo").Float64Histogram("lat")
+	profile := r.Intn(4)
+	for n := 1 + r.Intn(40); n > 0; n-- {
+		v := float64(1+r.Intn(5000)) / 8
+		switch profile {
+		case 1:
+			v = -v
+		case 2:
+			if r.Bool() {
+				v = -v / float64(1+r.Intn(1000))
+			}
+		case 3:
+			v = vf.Pick(r, []float64{0, 1, -1, 0.001, -1000, 1000, -0.25})
+		}
+		h.Record(ctx, v)
+	}
+	var mfs []*dto.MetricFamily
+	var gerr error
+	if !k.Guard("panic-in-gather", "expo", func() { mfs, gerr = reg.Gather() }) {
+		return
+	}
+	if gerr != nil {
+		k.Violate("gather-error", "exponential histogram", gerr.Error(), nil)
+		return
+	}
+	var rm metricdata.ResourceMetrics
+	if err := twin.Collect(ctx, &rm); err != nil {
+		return
+	}
+	var want *metricdata.ExponentialHistogramDataPoint[float64]
+	for _, sm := range rm.ScopeMetrics {
+		for _, mt := range sm.Metrics {
+			if d, ok := mt.Data.(metricdata.ExponentialHistogram[float64]); ok && len(d.DataPoints) == 1 {
+				want = &d.DataPoints[0]
+			}
+		}
+	}
+	var got *dto.Histogram
+	for _, mf := range mfs {
+		if mf.GetName() == "lat" && len(mf.Metric) == 1 {
+			got = mf.Metric[0].GetHistogram()
+		}
+	}
+	if want != nil && got == nil && (want.Scale > 8 || want.Scale < -4) {
+		// Prometheus native histograms only have schemas -4..8; the exporter does not downscale
+		k.Violate("series-count", "exponential histogram with a scale outside [-4,8] is not exposed", fmt.Sprintf("scale %d: the data point is missing from the scrape (client_golang rejects the schema, the error goes to the ErrorHandler)", want.Scale), nil)
+		k.C.Count("expo_cases_outside_native_schema_range", 1)
+		return
+	}
+	if want == nil || got == nil {
+		k.Violate("series-count", "exponential histogram", fmt.Sprintf("twin has point=%v, registry has histogram=%v", want != nil, got != nil), nil)
+		return
+	}
+	decode := func(spans []*dto.BucketSpan, deltas []int64) map[int]int64 {
+		out := map[int]int64{}
+		idx, di := 0, 0
+		var cur int64
+		for si, sp := range spans {
+			if si == 0 {
+				idx = int(sp.GetOffset())
+			} else {
+				idx += int(sp.GetOffset())
+			}
+			for n := 0; n < int(sp.GetLength()) && di < len(deltas); n++ {
+				cur += deltas[di]
+				di++
+				if cur != 0 {
+					out[idx] = cur
+				}
+				idx++
+			}
+		}
+		return out
+	}
+	expect := func(b metricdata.ExponentialBucket) map[int]int64 {
+		out := map[int]int64{}
+		for i, c := range b.Counts {
+			if c != 0 {
+				out[int(b.Offset)+i+1] = int64(c)
+			}
+		}
+		return out
+	}
+	detail := func() string {
+		return fmt.Sprintf("scale %d zero %d count %d sum %v\nSDK positive offset %d counts %v, negative offset %d counts %v\nexposed schema %d zero %d count %d sum %v positive %v negative %v",
+			want.Scale, want.ZeroCount, want.Count, want.Sum, want.PositiveBucket.Offset, want.PositiveBucket.Counts, want.NegativeBucket.Offset, want.NegativeBucket.Counts,
+			got.GetSchema(), got.GetZeroCount(), got.GetSampleCount(), got.GetSampleSum(), decode(got.PositiveSpan, got.PositiveDelta), decode(got.NegativeSpan, got.NegativeDelta))
+	}
+	if got.GetSchema() != want.Scale || got.GetZeroCount() != want.ZeroCount || got.GetSampleCount() != want.Count || got.GetSampleSum() != want.Sum {
+		k.Violate("series-value", "exponential histogram header", detail(), nil)
+		return
+	}
+	if fmt.Sprint(decode(got.PositiveSpan, got.PositiveDelta)) != fmt.Sprint(expect(want.PositiveBucket)) {
+		k.Violate("series-value", "exponential histogram positive buckets", detail(), nil)
+		return
+	}
+	if fmt.Sprint(decode(got.NegativeSpan, got.NegativeDelta)) != fmt.Sprint(expect(want.NegativeBucket)) {
+		k.Violate("series-value", "exponential histogram negative buckets", detail(), nil)
+		return
+	}
+	mp.Shutdown(ctx)
+	k.C.Count("expo_cases", 1)
+	if len(want.NegativeBucket.Counts) > 0 {
+		k.C.Count("expo_cases_with_negative_buckets", 1)
+	}
+	k.C.Sig(fmt.Sprintf("expo|%d|%d", profile, want.Scale))
+}
+
 func main() {
 	for i, a := range os.Args {
 		if a == "--replay" && i+1 < len(os.Args) {
@@ -948,6 +1071,9 @@ func main() {
 		c.Isolated("legacy", n/2, vf.IsoOpts{Batch: 200, Par: 16, Env: func(int) []string { return []string{"C18_SCHEME=legacy"} }}, runCase)
 		c.Isolated("concurrent", c.N(160, 2000), vf.IsoOpts{Batch: 10, Par: 16}, runConcurrent)
 		c.Isolated("scopes", c.N(400, 6000), vf.IsoOpts{Batch: 50, Par: 16}, runScopes)
+		c.Isolated("expo", c.N(600, 8000), vf.IsoOpts{Batch: 60, Par: 16}, runExpo)
+		c.Floor("expo_cases", 300)
+		c.Floor("expo_cases_with_negative_buckets", 50)
 		c.Floor("scope_cases", 200)
 		c.Floor("instruments_checked", 2000)
 		c.Floor("series_compared", 4000)
